@@ -382,6 +382,7 @@ class Engine:
         self.trace_calls = False
         self.bounds_unknown_as_panic = True
         self.nsym = 0
+        self.store_log = None
         self.taint = False
         self.events = []
         self.taint_seen = {}
@@ -716,6 +717,8 @@ class Engine:
     def store(self, ptr, val):
         if ptr.obj is None:
             raise GoPanic('nil pointer dereference', 'nil')
+        if self.store_log is not None:
+            self.store_log.add(ptr.obj)
         val = self.copyval(val)
         o = self.heap[ptr.obj]
         path = ptr.path
@@ -1207,6 +1210,8 @@ class Engine:
 
     def do_copy(self, dst, src):
         n = self.min_int(dst.len, src.len)
+        if self.store_log is not None and dst.obj is not None and not (isinstance(n, int) and n == 0):
+            self.store_log.add(dst.obj)
         if isinstance(n, int) and isinstance(dst.off, int) and isinstance(src.off, int):
             if n == 0:
                 return 0
